@@ -31,6 +31,21 @@ use rustc_middle::mir::{
 use rustc_middle::ty::{self, Instance, Ty, TyCtxt, TypingEnv};
 use rustc_span::Span;
 
+struct UnsafeCounter {
+    count: usize,
+    lines: Vec<usize>,
+}
+
+impl<'v> rustc_hir::intravisit::Visitor<'v> for UnsafeCounter {
+    fn visit_block(&mut self, b: &'v rustc_hir::Block<'v>) {
+        if let rustc_hir::BlockCheckMode::UnsafeBlock(rustc_hir::UnsafeSource::UserProvided) = b.rules {
+            self.count += 1;
+            self.lines.push(b.span.lo().0 as usize);
+        }
+        rustc_hir::intravisit::walk_block(self, b);
+    }
+}
+
 struct Cb;
 
 impl rustc_driver::Callbacks for Cb {
@@ -343,6 +358,14 @@ impl<'tcx> Dumper<'tcx> {
             _ => tcx.fn_sig(did).skip_binder().safety().is_unsafe(),
         };
         let _ = write!(o, "\"unsafe_fn\":{},", is_unsafe);
+        // user-written unsafe blocks in this body (closures are separate bodies and counted there)
+        let mut uc = UnsafeCounter { count: 0, lines: Vec::new() };
+        {
+            use rustc_hir::intravisit::Visitor;
+            let hbody = tcx.hir_body_owned_by(ldid);
+            uc.visit_expr(hbody.value);
+        }
+        let _ = write!(o, "\"unsafe_blocks\":{},", uc.count);
         let _ = write!(o, "\"argc\":{},", body.arg_count);
         // locals
         let mut names: HashMap<usize, String> = HashMap::new();
@@ -1076,6 +1099,34 @@ impl<'tcx> Dumper<'tcx> {
             let _ = write!(hex, "{:02x}", b);
         }
         let nptr = a.provenance().ptrs().len();
+        let mut target_hex = String::new();
+        let mut target_len = 0usize;
+        if nptr == 1 {
+            if let Some((_, prov)) = a.provenance().ptrs().iter().next() {
+                if let rustc_middle::mir::interpret::GlobalAlloc::Memory(m) = tcx.global_alloc(prov.alloc_id()) {
+                    let ma = m.inner();
+                    target_len = ma.len();
+                    if target_len <= 1 << 20 {
+                        let tb = ma.inspect_with_uninit_and_ptr_outside_interpreter(0..target_len);
+                        for b in tb {
+                            let _ = write!(target_hex, "{:02x}", b);
+                        }
+                    }
+                }
+            }
+        }
+        if !target_hex.is_empty() {
+            return Some(format!(
+                "{{\"path\":{},\"ty\":{},\"len\":{},\"ptrs\":{},\"hex\":{},\"target_len\":{},\"target_hex\":{}}}",
+                esc(&self.path(did)),
+                esc(&format!("{}", ty)),
+                len,
+                nptr,
+                esc(&hex),
+                target_len,
+                esc(&target_hex)
+            ));
+        }
         Some(format!(
             "{{\"path\":{},\"ty\":{},\"len\":{},\"ptrs\":{},\"hex\":{}}}",
             esc(&self.path(did)),
